@@ -485,6 +485,63 @@ class Run:
         return 0
 
 
+REPLAYERS = {
+    # replay kind -> (harness sub-command, validator module, extra env builder)
+    "bbi": ("bbi", None),        # validator chosen from the case kind + property
+    "refuse": ("refuse", "Obs_Refusal"),
+    "reader": ("reader", "Obs_Reader"),
+    "slicing": ("slicing", "Obs_Slicing"),
+    "merge": ("merge", "Obs_Merge"),
+    "autosql": ("autosql", "Obs_AutoSql"),
+    "sink": ("sink", "Obs_Sink"),
+    "stats": ("stats", "Obs_Stats"),
+}
+
+
+def replay_file(pid, path):
+    """bin/check <ID> --replay <file>: re-execute the single recorded behaviour on the real code and let
+    TLC judge it again.  Exit 0 = the property holds on it now, 1 = still violated."""
+    d = json.load(open(path))
+    rep = d.get("replay", {})
+    kind = rep.get("kind")
+    case = rep.get("case")
+    if kind not in REPLAYERS or not isinstance(case, dict):
+        log("replay of kind %r is not a single harness case: re-run `bin/check %s` (the stimulus is in %s)" % (kind, pid, path))
+        return 2
+    sub, module = REPLAYERS[kind]
+    wd = workdir(pid + "_replay")
+    case = dict(case)
+    case.pop("dump", None)
+    if isinstance(case.get("items"), str):
+        log("the long generated behaviour cannot be replayed from the file: re-run `bin/check %s`" % pid)
+        return 2
+    obs = run_harness(sub, [case], wd, shards=1, hang_timeout=60)
+    o = obs[0]
+    o.pop("case", None)
+    env = {}
+    if kind == "bbi":
+        module = "Obs_BigWig" if o.get("kind") == "bw" else "Obs_BigBed"
+        prop = pid
+        if pid == "C05":
+            prop = "C03" if o.get("kind") == "bw" else "C04"
+        if pid == "C09":
+            log("C09 replays need the independent decode: re-run `bin/check C09`")
+            return 2
+        env = {"PROP": prop}
+    if kind == "sink":
+        o = {"mode": o.get("mode", "fault"), "obs": o["obs"]}
+    line = json.dumps(o, separators=(",", ":"))
+    bad = validate_obs(module, "Obs.cfg", [line], wd, "replay", shards=1, extra_env=env)
+    log("observation: %s" % json.dumps(o.get("obs"))[:600])
+    shutil.rmtree(wd, ignore_errors=True)
+    if bad and not bad[0][1].startswith("known:"):
+        log("VIOLATION property=%s replay=%s" % (pid, path))
+        log("  still violated: %s" % bad[0][1])
+        return 1
+    log("[%s] replay: the property holds on this behaviour (%s)" % (pid, bad[0][1] if bad else "ok"))
+    return 0
+
+
 def main_wrap(fn):
     """Exit codes: 0 ok, 1 violation (printed), 2 tool error."""
     try:
